@@ -293,7 +293,7 @@ type SysCase struct {
 
 // Case is the case descriptor.
 type Case struct {
-	Kind       string        `json:"kind"` // login | escalate | platform | system
+	Kind       string        `json:"kind"` // login | escalate | platform | system | fault
 	Level      string        `json:"level"`
 	Family     string        `json:"secret_family"`
 	Password   string        `json:"password"`
@@ -303,6 +303,7 @@ type Case struct {
 	Esc        *EscCase      `json:"escalate,omitempty"`
 	Plat       *PlatCase     `json:"platform,omitempty"`
 	Sys        *SysCase      `json:"system,omitempty"`
+	Fault      *FaultCase    `json:"fault,omitempty"`
 }
 
 func genSeg(r *rand.Rand) devsim.Seg {
@@ -699,6 +700,7 @@ func Run(mc mon.Case) mon.Result {
 	mc.Decode(&c)
 	m := &Monitor{}
 	var s session
+	var returned []error
 	switch c.Kind {
 	case "login":
 		s = runLogin(&c, m)
@@ -708,6 +710,9 @@ func Run(mc mon.Case) mon.Result {
 		s = runPlatform(&c, m)
 	case "system":
 		s = runSystem(&c, mc.ID, m)
+	case "fault":
+		fr := runFaultCase(&c, m)
+		s, returned = fr.s, fr.returned
 	}
 	m.settle()
 	msgs, chlog := m.snapshot()
@@ -751,10 +756,23 @@ func Run(mc mon.Case) mon.Result {
 	if len(s.argv) > 0 {
 		obs["child_argv_inspected"] = 1
 	}
+	// error values handed back to the caller are not log messages: a secret in one is recorded as an
+	// observation (it becomes a violation above as soon as the library itself logs that error)
+	var retTags []string
+	for _, e := range returned {
+		if l := scan(secrets, []string{e.Error()}, ""); l != nil {
+			obs["secret_in_returned_error"]++
+			retTags = append(retTags, "c11/secret-in-returned-error:"+l.Secret+":"+s.kind)
+		}
+	}
+	if len(returned) > 0 {
+		obs["returned_errors_inspected"] = int64(len(returned))
+	}
 	tags := []string{"kind=" + s.kind, "level=" + c.Level, "secrets=" + c.Family, "outcome=" + c.Kind + ":" + s.outcome}
 	if s.c10Verdict == mon.Violated {
 		tags = append(tags, "c10-complaint="+s.c10Key)
 	}
+	tags = append(tags, retTags...)
 	sample := map[string]interface{}{"session": s.kind, "level": c.Level, "outcome": s.outcome, "messages": len(msgs), "redacted_messages": redacted,
 		"credential_writes": s.credWrites, "channel_log_bytes": len(chlog)}
 	if len(msgs) > 0 {
@@ -772,7 +790,10 @@ func init() {
 		Level: "exploration",
 		Rule: "PRNG-generated sessions with a collecting logger (debug 70%, info 20%, critical 10%) and channel log: C10 login dialogues (telnet/ssh type; success, retries, " +
 			"failures, timeouts, stalls), network-driver escalations and hidden interactive inputs (device asks / rejects / re-asks / grants / refuses / no secondary), platform " +
-			"definitions (YAML) whose on-open writes redacted input, and the real system transport spawning a stand-in for ssh (argv inspected). Non-trivial = at least one secret " +
+			"definitions (YAML) whose on-open writes redacted input, and the real system transport spawning a stand-in for ssh (argv inspected). Fault enumeration: for escalations " +
+			"run from on-open / on-close hooks (network driver, platform-built network driver, generic driver with a hidden interactive event), a direct AcquirePriv, and four in-channel " +
+			"logins, the exchange is measured by a fault-free dry run and a fresh session loses the connection (EOF, persistent read error) after byte k for every k (quick: every 3rd) " +
+			"and at every write (write error); thorough runs the hook cases at all three log levels. Non-trivial = at least one secret " +
 			"provably reached the device (device log) and, at debug level, the logger saw its 'redacted' write message. Distinct = descriptor hash.",
 		Assumptions: []string{
 			"devices never echo secrets (hidden input); the stand-in ssh puts its tty in raw mode before prompting",
@@ -781,6 +802,7 @@ func init() {
 			"blindness check at debug level only: >= 1 'redacted' message per credential line the device received, >= 1 message with the non-secret host/command/user",
 			"messages logged by goroutines the library leaves behind later than 50 ms after the session are not seen",
 			"the response objects (Response.Input of SendInteractive) are not logs and are not inspected",
+			"error values returned to the caller are not log messages: a secret inside one is counted (observed.secret_in_returned_error, tag c11/secret-in-returned-error:...) but is a violation only once the library logs it (on-open / on-close hook errors are logged at critical level)",
 		},
 		Gen: func(tier string, seed int64) []mon.Case {
 			n := 300
@@ -792,6 +814,7 @@ func init() {
 			for i := 0; i < n; i++ {
 				cs = append(cs, mon.MkCase(fmt.Sprintf("c11/%05d", i), genCase(r, i)))
 			}
+			cs = append(cs, genFaultCases(r, tier)...)
 			return cs
 		},
 		Run: Run,
